@@ -65,6 +65,30 @@ func loadZone(name string) *time.Location {
 	return l
 }
 
+// treeCache: parse once, evaluate many times - the natural deployment. A run
+// keeps the trees it parsed and reuses them (for half of the evaluations of a
+// text it has seen before), so state hung on a tree or keyed by a node is met
+// again by later evaluations.
+type treeCache struct {
+	trees map[string]*formula.SourceCode
+	hits  int
+}
+
+func (tc *treeCache) parse(text string, reuse bool) (*formula.SourceCode, error) {
+	if tc.trees == nil {
+		tc.trees = map[string]*formula.SourceCode{}
+	}
+	if src, ok := tc.trees[text]; ok && reuse {
+		tc.hits++
+		return src, nil
+	}
+	src, err := formula.ParseSourceCode([]byte(text))
+	if err == nil && src != nil {
+		tc.trees[text] = src
+	}
+	return src, err
+}
+
 func safeParse(text string) (src *formula.SourceCode, err error, pan interface{}) {
 	defer func() {
 		if p := recover(); p != nil {
@@ -153,10 +177,10 @@ func runShared(rc *RunCtx) {
 	wl := rc.tape.Stream("workload")
 	pl := rc.tape.Stream("plan")
 	maxForm, maxTasksN, maxOps, nodes, depth := 3, 4, 10, 25, 6
-	maxSteps := int64(60000)
+	maxSteps := int64(400000)
 	if rc.thorough {
 		maxForm, maxTasksN, maxOps, nodes, depth = 6, 8, 30, 80, 12
-		maxSteps = 400000
+		maxSteps = 1500000
 	}
 	cfg := genCfg{maxNodes: nodes, maxDepth: depth, clockFns: true, hostFns: true, assign: true}
 	sc := &sharedScenario{}
